@@ -59,9 +59,11 @@ func gen(rng *rand.Rand, tier core.Tier, emit core.Emit) {
 			if rng.Intn(4) == 0 {
 				src = b
 			}
-			if rng.Intn(6) == 0 {
+			if rng.Intn(4) == 0 {
 				// the attacker comes over IPv6 (the reporter socket is dual-stack): it owns no IPv4 server at all
-				ops = append(ops, reputil.Dg6([]string{"2001:db8::15", "fe80::1", "::1"}[rng.Intn(3)], reputil.SrcPort(rng), p))
+				ops = append(ops, reputil.Dg6([]string{"2001:db8::15", "fe80::1", "::1",
+					// … and one whose low 32 bits spell the victim's (or its own) IPv4 address: still not that IPv4 address
+					"2001:db8::" + b, "64:ff9b::" + b, "::" + b, "2001:db8::" + a, "fe80::" + b}[rng.Intn(8)], reputil.SrcPort(rng), p))
 			} else {
 				ops = append(ops, reputil.Dg(src, reputil.SrcPort(rng), p))
 			}
